@@ -14,6 +14,7 @@ real `datagram_received` on garbage (all short byte strings over the bencode alp
 mutation of valid datagrams, deep nesting).
 """
 import z3
+import re
 from pyvc.api import *
 from pyvc.values import *
 from pyvc.speclib import implies, forall
@@ -65,6 +66,102 @@ class BencodeBytes:
         for n in (0, 1, 9, 10, 99, 100, 999, 1000, 1001, 1399):
             yield dict(b=bytes((i * 11 + n) % 256 for i in range(n)))
             yield dict(b=(b'1:e0i' * n)[:n])
+
+
+# ------------------------------------------------------------------ the decoder always moves forward (termination of its loops)
+
+@proof("C17", "bdecode.scalar-advances")
+class BdecodeScalarAdvances:
+    """on ARBITRARY bytes, at any position that does not start a list or a dictionary, _bdecode either raises one of the classes the
+    handler guards against or returns a cursor strictly behind the position it started from - so the loops of the enclosing list /
+    dictionary make progress on every element and end (at the latest with IndexError behind the end of the datagram).
+    Found defect F17 (fixed): a negative string length moved the cursor backwards, `d-3:e` never returned."""
+    inputs = dict(data=TBytes(), start=TInt(0, 65535))
+    note = "all strings of length <= 5 over a 9-symbol alphabet of digits, signs and separators at every start position"
+    raises = {DecodeError: True, ValueError: True}
+
+    def requires(data, start):
+        # an element of a list / dictionary starts behind the container's opening byte: position >= 1.  (At position 0 - the single
+        # top-level call of bdecode(), not inside any loop - a token without its terminator returns the cursor 0: data[0:-1] is
+        # parsed; bdecode() then refuses the result because it is not a dictionary.)
+        return 1 <= start < len(data) and data[start] != ord('l') and data[start] != ord('d')
+
+    def run(data, start):
+        return _bdecode(data, start)[1]
+
+    def ensures_cursor_moves_forward(start, result):
+        return result > start
+
+    def samples():
+        import itertools
+        alphabet = [b'i', b'e', b'0', b'3', b':', b'-', b'+', b' ', b'_']
+        for n in range(1, 6):
+            for combo in itertools.product(alphabet, repeat=n):
+                raw = b''.join(combo)
+                for start in range(1, len(raw) + 1):
+                    yield dict(data=b'l' + raw, start=start)
+
+
+MAX_ELEMENTS = 4
+
+
+class _Opaque:
+    """a decoded element whose content does not matter for the progress argument"""
+
+
+def _bdecode_element_contract(interp, st, args, kwargs):
+    """symbolic side only.  The outermost call runs the real _bdecode; every RECURSIVE call (one element of a list / dictionary) is
+    replaced by the contract proved above and, inductively, below: it raises one of the guarded classes or returns a cursor strictly
+    behind its start.  After MAX_ELEMENTS elements the element is assumed to be followed by the closing 'e' (containers are unrolled
+    up to that many elements; their contents stay arbitrary)."""
+    from pyvc.sources import SOURCES
+    depth = getattr(interp, '_bdecode_depth', 0)
+    if depth == 0:
+        interp._bdecode_depth = 1
+        interp._bdecode_calls = 0
+        try:
+            node = SOURCES.node_of(_bdecode)
+            results = list(interp.call_ast(st, node, _bdecode.__globals__, [], list(_bdecode.__defaults__ or ()), {}, _bdecode.__qualname__,
+                                           _bdecode.__code__.co_filename, args, kwargs))
+        finally:
+            interp._bdecode_depth = 0
+        yield from results
+        return
+    data, i = args[0], (args[1] if len(args) > 1 else kwargs['start_index'])
+    interp._bdecode_calls += 1
+    for ex in (DecodeError, ValueError, IndexError, RecursionError):
+        s1 = st.copy()
+        yield s1, Raise(VExc(ex, []))
+    j = z3.Int(fresh_name('cursor'))
+    s1 = st.copy()
+    if interp._bdecode_calls > MAX_ELEMENTS:
+        return          # unrolling bound: element number MAX_ELEMENTS + 1 only raises (containers of up to MAX_ELEMENTS elements)
+    if s1.assume(j > (i.v if not isinstance(i.v, int) else z3.IntVal(i.v))):
+        yield s1, VTuple([VConst(_Opaque()), VInt(j)])
+
+
+@proof("C17", "bdecode.container-advances")
+class BdecodeContainerAdvances:
+    """a list or dictionary whose elements obey the cursor contract (each raises or moves forward) itself raises only guarded classes
+    or returns a cursor behind its start, for up to 4 elements of arbitrary content (2 key/value pairs)"""
+    inputs = dict(data=TBytes(), start=TInt(0, 65535))
+    note = "nested lists / dictionaries from the garbage generator"
+    models = {_bdecode: _bdecode_element_contract}
+    raises = {DecodeError: True, ValueError: True, IndexError: True, RecursionError: True, TypeError: True}
+    sym_unroll_limit = 8
+
+    def requires(data, start):
+        return 0 <= start < len(data) and (data[start] == ord('l') or data[start] == ord('d'))
+
+    def run(data, start):
+        return _bdecode(data, start)[1]
+
+    def ensures_cursor_moves_forward(start, result):
+        return result > start
+
+    def samples():
+        for raw in (b'le', b'de', b'l1:ae', b'd1:a1:be', b'lli1eee', b'd1:ad1:bi2eee', b'l-1:e', b'l0:0:0:0:e', b'li1ei2ei3ee'):
+            yield dict(data=raw, start=0)
 
 
 # ------------------------------------------------------------------ compact addresses
@@ -444,6 +541,18 @@ def _garbage():
     yield b'd1:0i2e1:120:' + RPC + b'1:248:' + NODE + b'1:3i5e1:40:e'       # error datagram with an integer exception type
     yield b'di0ei0ei1e20:' + RPC + b'i2e48:' + NODE + b'i3e4:pingi4elee'
     yield b'de'
+    # hostile length prefixes (int() accepts signs, blanks, underscores): fixed defect F17, `d-3:e` never returned
+    for raw in (b'd-3:e', b'l-1:e', b'l-2:e', b'd1:a-2:e', b'd-0:e', b'l+1:ae', b'l 1:ae', b'l1_0:aaaaaaaaaae', b'-5:', b'd-1:e', b'ld-9:ee',
+                b'd1:0i0e1:120:' + RPC + b'1:2-48:' + NODE + b'1:34:ping1:4lee'):
+        yield raw
+    for raw in valid[:6]:
+        for m in re.finditer(rb'\d+:', raw):
+            for repl in (b'-1:', b'-2:', b'-%d:' % (len(raw) + 5), b'+1:', b' 1:', b'99999:'):
+                yield raw[:m.start()] + repl + raw[m.end():]
+    # containers where the protocol expects scalars (length checks pass for a 20-item list)
+    yield b'd1:0i1e1:1l' + b'i1e' * 20 + b'e1:248:' + NODE + b'1:34:ponge'
+    yield b'd1:0i0e1:1l' + b'i1e' * 20 + b'e1:248:' + NODE + b'1:34:ping1:4lee'
+    yield b'd1:0i1e1:120:' + RPC + b'1:2l' + b'i1e' * 48 + b'e1:34:ponge'
 
 
 class _Transport:
